@@ -108,7 +108,10 @@ pub fn run_scenario(bench: &mut Bench, sc: &Scenario) -> ScenarioOutcome {
         // audit every cached claim
         let entries = bench.searcher.verif_tt_entries();
         out.probes.add("tt_entries_audited", entries.len() as u64);
-        match audit_tt(bench, &entries, &hmap) {
+        let mut unauditable = 0u64;
+        let audit = audit_tt(bench, &entries, &hmap, sc.key_seed, &mut unauditable);
+        out.probes.add("tt_entries_outside_the_audited_tree", unauditable);
+        match audit {
             Ok(Some(d)) => {
                 out.violations.push(("tt_claim_false".into(), format!("after interrupted search {} (expiry read {}): {}", i, j, d)));
             }
@@ -396,7 +399,7 @@ pub fn run(ctx: &Ctx) -> i32 {
     });
     let ev = Evidence {
         level: "fault_enumeration",
-        rule: "Positions from seeded playouts of the rules model (kept when the unpruned reference fits its node budget), depth 1..3. Crash point = index j of the clock read at which the deadline first reads expired (forced-expiry clock). Quick: j in 1..32, every iteration boundary +-4, 64 seeded j per position; thorough: every j in 1..R for positions with R<=6000 reads (exhaustive in the crash-point dimension for that position) else 400 seeded j; plus sequences of 2-3 interruptions, other key sets, and really fresh engines. After each interrupted search: history length unchanged and every cached claim audited against the reference; then a completed search must report M and a move attaining it. A case = (position, depth, expiry sequence); all are non-trivial.".into(),
+        rule: "Positions from seeded playouts of the rules model (kept when the unpruned reference fits its node budget), depth 1..3. Crash point = index j of the clock read at which the deadline first reads expired (forced-expiry clock). Quick: j in 1..32, every iteration boundary +-4, 64 seeded j per position; thorough: every j in 1..R for positions with R<=6000 reads (exhaustive in the crash-point dimension for that position) else 400 seeded j; plus sequences of 2-3 interruptions, other key sets, and really fresh engines. After each interrupted search: history length unchanged and every cached claim about a position of the tree (interior nodes; horizon positions too, should the engine cache them) audited against the reference; then a completed search must report M and a move attaining it. A case = (position, depth, expiry sequence); all are non-trivial.".into(),
         extra: serde_json::Map::new(),
         assumptions: vec![
             "reference M takes the engine's move generator, make_move, static evaluation and full-window quiescence as given".into(),
